@@ -507,6 +507,8 @@ impl<C: ContainerValue> ContainerEnv<C> {
         to_scan: SubsetRef,
         search_col: ColumnId,
     ) -> ContainerRebuildSummary {
+        #[cfg(feature = "verif-hooks")]
+        crate::verif::hit(crate::verif::Site::container_rebuild_incremental);
         // NB: there is no parallel implementation as of now.
         //
         // Implementing one should be straightforward, but we should wait for a real benchmark that
@@ -564,6 +566,8 @@ impl<C: ContainerValue> ContainerEnv<C> {
         if parallelize_inter_container_op(self.to_id.len()) {
             return self.apply_rebuild_nonincremental_parallel(rebuilder, exec_state);
         }
+        #[cfg(feature = "verif-hooks")]
+        crate::verif::hit(crate::verif::Site::container_rebuild_nonincremental);
         let mut summary = ContainerRebuildSummary::default();
         let mut to_reinsert = Vec::new();
         let shards = self.to_id.shards_mut();
@@ -613,6 +617,8 @@ impl<C: ContainerValue> ContainerEnv<C> {
         rebuilder: &dyn Rebuilder,
         exec_state: &mut ExecutionState,
     ) -> ContainerRebuildSummary {
+        #[cfg(feature = "verif-hooks")]
+        crate::verif::hit(crate::verif::Site::container_rebuild_parallel);
         // This is very similar to the serial variant. The main difference is that
         // `to_reinsert` isn't a flat vector. It's instead a vector of queues - one per
         // destination map shard. This lets us do a bulk insertion in parallel without having
